@@ -351,7 +351,23 @@ func genInterleave(rnd *rand.Rand, st *caseState) (kind string, stmts []string) 
 		}
 	}
 	// DDL
-	switch rnd.Intn(8) {
+	switch rnd.Intn(10) {
+	case 8:
+		// schema changes on s, the table targeted by the column-list-free INSERT / REPLACE templates: a
+		// prepared statement must follow the new column set exactly like the literal text does
+		if st.sHasX {
+			st.sHasX = false
+			return "ddl-s-drop-col", []string{"ALTER TABLE s DROP COLUMN x"}
+		}
+		st.sHasX = true
+		return "ddl-s-add-col", []string{"ALTER TABLE s ADD COLUMN x INT DEFAULT 7"}
+	case 9:
+		if st.sReordered {
+			st.sReordered = false
+			return "ddl-s-reorder-back", []string{"ALTER TABLE s MODIFY COLUMN a INT AFTER id"}
+		}
+		st.sReordered = true
+		return "ddl-s-reorder", []string{"ALTER TABLE s MODIFY COLUMN a INT AFTER b"}
 	case 0:
 		if st.hasG {
 			st.hasG = false
@@ -396,15 +412,18 @@ func genInterleave(rnd *rand.Rand, st *caseState) (kind string, stmts []string) 
 	case 6:
 		return "ddl-truncate", []string{"TRUNCATE TABLE t", genRowT(rnd, 1), genRowT(rnd, 2), genRowT(rnd, 3)}
 	default:
+		st.sHasX, st.sReordered = false, false
 		return "ddl-recreate-s", []string{"DROP TABLE s", createS, fmt.Sprintf("INSERT INTO s VALUES (1, %d, 'a'), (2, %d, 'b')", pick(rnd, smallInts), pick(rnd, smallInts))}
 	}
 }
 
 type caseState struct {
-	nextID   int
-	hasG     bool
-	hasIx    bool
-	droppedB bool
+	nextID     int
+	hasG       bool
+	hasIx      bool
+	droppedB   bool
+	sHasX      bool
+	sReordered bool
 }
 
 // ---------- worlds ----------
